@@ -11,8 +11,8 @@
      db_ok x                    the dictionary invariant of the prior database + every stored id decodes
      lq_of4 q                   a document quad as `den` reports it
      known_C13_*                the decidable classes of the known findings              (Classes.v) *)
-Require Import KV.Codec13.Model KV.Codec13.Spec KV.Codec13.Wf KV.Codec13.Classes KV.Codec13.Inv KV.Codec13.Witness.
-Require Import KV.Codec13.ChunkProofs KV.Codec13.NtProofs KV.Codec13.RefuteProofs.
+Require Import KV.Codec13.Model KV.Codec13.Spec KV.Codec13.Wf KV.Codec13.WfTtl KV.Codec13.Classes KV.Codec13.Inv KV.Codec13.Witness.
+Require Import KV.Codec13.ChunkProofs KV.Codec13.NtProofs KV.Codec13.N3Proofs KV.Codec13.TtlProofs KV.Codec13.AgreeProofs KV.Codec13.RefuteProofs.
 
 (* (1) Splitting the document into chunks of ANY size n >= 1, parsing each chunk on its own (one rayon
    task per chunk) and concatenating the results in chunk order gives exactly the per-line parse of
@@ -66,7 +66,20 @@ Theorem C13_reclean_refuted :
 Proof. exact reclean_refuted. Qed.
 Print Assumptions C13_reclean_refuted.
 
-(* (4) N3.  Both halves of known_C13_n3 are genuine violations of the full statement
+(* (4) N3.  Outside the class known_C13_n3 (the receiving dictionary is empty AND the document has at
+   most 1000 lines, i.e. one chunk) parse_n3 is right: for every document of the N3 subset (IRIs and
+   prefixed names, @prefix declarations anywhere, blank lines, comment lines, any white space) and every
+   such database, the loaded database denotes the prior quads plus the document's triples.
+   The full statement (without the hypothesis known_C13_n3 doc x = false) is false: see the two
+   refutations below. *)
+Theorem C13_n3 :
+  forall (doc : list item) (x : db),
+    wf_doc_n3 doc = true -> known_C13_n3 doc x = false -> db_ok x ->
+    forall lq, In lq (den (load_n3 (render_doc doc) x)) <-> In lq (den x) \/ In lq (map lq_of4 (triples_of doc)).
+Proof. exact n3_main. Qed.
+Print Assumptions C13_n3.
+
+(* Both halves of known_C13_n3 are genuine violations of the full statement
      forall doc x, den (load_n3 (render_doc doc) x) = den x U triples_of doc :
    (a) one well-formed statement loaded into a database holding one triple adds nothing *)
 Theorem C13_n3_nonempty_dictionary_refuted :
@@ -93,7 +106,7 @@ Proof. exact n3_literal_refuted. Qed.
 Print Assumptions C13_n3_literal_refuted.
 
 Theorem C13_n3_hash_refuted :
-  known_C13_n3 wf_doc db_new = false /\ known_C13_n3_literal wf_doc = false /\
+  known_C13_n3 wf_doc db_new = false /\ known_C13_n3_literal wf_doc = false /\ known_C13_n3_hash wf_doc = true /\
   ~ (forall lq, In lq (den (load_n3 (render_doc wf_doc) db_new)) <-> In lq (den db_new) \/ In lq (map lq_of4 (triples_of wf_doc))).
 Proof. exact n3_hash_refuted. Qed.
 Print Assumptions C13_n3_hash_refuted.
@@ -103,6 +116,40 @@ Theorem C13_turtle_tagged_refuted :
   ~ (forall lq, In lq (den (load_ttl (render_doc we_doc) db_new)) <-> In lq (den db_new) \/ In lq (map lq_of4 (triples_of we_doc))).
 Proof. exact ttl_tagged_refuted. Qed.
 Print Assumptions C13_turtle_tagged_refuted.
+
+(* Turtle, one statement per line (IRIs that are http(s):// or colon-free, prefixed names, blank nodes with
+   alphanumeric labels, plain literals whose value has no ':' and does not start with '<' or a quote; @prefix lines,
+   comments, blank lines), into EVERY prior database satisfying the invariant whose prefix table is sane
+   (alphanumeric names, IRIs not starting with '<').  Prefixes declared by earlier loads stay in scope in
+   parse_turtle, so the document's quads are read under `d_pref x` (= triples_of doc when that table is empty).
+   `;`/`,` lists and tagged literals: modelled + correspondence only (tagged literals are finding
+   C13-turtle-tagged-literal). *)
+Theorem C13_turtle :
+  forall (doc : list item) (x : db),
+    wf_doc_ttl doc = true -> db_ok x -> pref_ok (d_pref x) ->
+    next_id (d_dict x) + 4 * N.of_nat (length doc) <= QBIT ->
+    db_ok (load_ttl (render_doc doc) x) /\
+    forall lq, In lq (den (load_ttl (render_doc doc) x)) <-> In lq (den x) \/ In lq (map lq_of4 (quads_from (d_pref x) doc)).
+Proof. exact ttl_main. Qed.
+Print Assumptions C13_turtle.
+
+(* (5) The same triples in different formats.  PARTIAL: proved for N-Triples, N-Quads (default graph),
+   one-statement-per-line Turtle and N3; RDF/XML is not modelled (correspondence stream only).  Full statement:
+     forall triples x, den (load_nt (as_nt triples) x) = den (load_nq (as_nq triples) x)
+                     = den (load_ttl (as_ttl triples) x) = den (load_n3 (as_n3 triples) x) = den (load_rdfxml ...)
+   A document whose statements are written with http(s) IRIs and single blanks is at the same time an
+   N-Triples, an N-Quads, a Turtle and an N3 document (same text). *)
+Theorem C13_formats_agree_partial :
+  forall (doc : list item) (x : db),
+    wf_doc_nt doc = true -> wf_doc_n3 doc = true -> wf_doc_ttl doc = true ->
+    known_C13_reclean doc = false -> known_C13_n3 doc x = false -> db_ok x -> pref_ok (d_pref x) ->
+    next_id (d_dict x) + 4 * N.of_nat (length doc) <= QBIT ->
+    forall lq,
+      (In lq (den (load_nt (render_doc doc) x)) <-> In lq (den (load_nq (render_doc doc) x))) /\
+      (In lq (den (load_nt (render_doc doc) x)) <-> In lq (den (load_ttl (render_doc doc) x))) /\
+      (In lq (den (load_nt (render_doc doc) x)) <-> In lq (den (load_n3 (render_doc doc) x))).
+Proof. exact formats_agree4. Qed.
+Print Assumptions C13_formats_agree_partial.
 
 (* non-vacuity: the hypotheses of (2) and (3) hold of a non-trivial document and a populated database *)
 Definition ex_doc : list item :=
@@ -119,3 +166,22 @@ Proof.
   split; [vm_compute; reflexivity|]. split; [vm_compute; reflexivity|]. split; [exact wa_db_ok|].
   split; [vm_compute; discriminate | vm_compute; reflexivity].
 Qed.
+
+(* non-vacuity of (4) and (5): prefixes, prefixed names, comments; and a document that is N-Triples and N3 at once *)
+Definition ex_n3 : list item :=
+  [IPrefix nEX iE; IComment [32] [99]; IStmt P0 (TPname nEX [115]) (TPname nEX [112]) (TIri iC) None;
+   IStmt (mkPad [32] [9] [32;32] [] [9] [13]) (TIri iA) (TPname [] [113]) (TPname nEX [111]) None].
+Definition ex_both : list item := [IStmt P0 (TIri iA) (TIri iB) (TIri iC) None; IBlank []; IStmt P0 (TIri iC) (TIri iB) (TIri iA) None].
+Example C13_example_n3 :
+  wf_doc_n3 ex_n3 = true /\ known_C13_n3 ex_n3 db_new = false /\ length (den (load_n3 (render_doc ex_n3) db_new)) = 2%nat /\
+  wf_doc_nt ex_both = true /\ wf_doc_n3 ex_both = true /\ wf_doc_ttl ex_both = true /\
+  known_C13_reclean ex_both = false /\ known_C13_n3 ex_both db_new = false.
+Proof. repeat split; vm_compute; reflexivity. Qed.
+
+Definition ex_ttl : list item :=
+  [IPrefix nEX iE; IStmt P0 (TPname nEX [115]) (TPname nEX [112]) (TLit [LPlain 118; LEsc 34; LPlain 32; LPlain 119] SNone) None;
+   IStmt P0 (TBnode [98;49]) (TIri iB) (TIri iC) None; IComment [] [99]].
+Example C13_example_turtle :
+  wf_doc_ttl ex_ttl = true /\ length (den (load_ttl (render_doc ex_ttl) wa_db)) = 3%nat.
+Proof. split; vm_compute; reflexivity. Qed.
+
